@@ -327,6 +327,17 @@ func programs(thorough bool) []program {
 			add(pre, []int{wrongLengthOp}, []int{j})
 		}
 	}
+	// VerifyShare of an INVALID share (another signer's share, a malformed string) against every operation,
+	// also when exactly those bytes already sit in the pool (TrustedAdd does not check them): the verdict
+	// is the share's validity, whatever the pool holds
+	for _, pre := range [][]int{nil, {2}, {3}, {2, 3}} {
+		for _, v := range verifyInvalidOps {
+			for j := 0; j < A; j++ {
+				add(pre, []int{v}, []int{j})
+			}
+			add(pre, []int{v}, []int{v})
+		}
+	}
 	// three threads, one operation each
 	for i := 0; i < A; i++ {
 		for j := i; j < A; j++ {
@@ -415,6 +426,26 @@ func init() {
 	// executed statements depend on Go's map iteration order (not owned by the scheduler): the
 	// wrong-length pre-states hold wrong-length shares only.
 	ops = append(ops, trustedAdd("TrustedAdd(1,47-bytes)", 1, func(f *fixture) []byte { return f.valid[1][:47] }))
+}
+
+// ops 23, 24: VerifyShare of invalid shares (the bytes of ops 2 and 3)
+var verifyInvalidOps = []int{23, 24}
+
+func init() {
+	ops = append(ops,
+		opDef{"VerifyShare(0,share-of-1)",
+			func(f *fixture, o crypto.ThresholdSignatureParticipant) string {
+				v, err := o.VerifyShare(0, f.valid[1])
+				return fmt.Sprintf("%v,%s", v, errc(err))
+			},
+			func(f *fixture, m *model) string { return "false,nil" }},
+		opDef{"VerifyShare(2,malformed)",
+			func(f *fixture, o crypto.ThresholdSignatureParticipant) string {
+				v, err := o.VerifyShare(2, f.bad)
+				return fmt.Sprintf("%v,%s", v, errc(err))
+			},
+			func(f *fixture, m *model) string { return "false,nil" }},
+	)
 }
 
 // ---------------------------------------------------------------- linearizability
